@@ -141,24 +141,30 @@ def GoType.strip : GoType → GoType
   | t => t
 
 mutual
-/-- `buildCodec(schema, typ, omit)` (build.go:32). `fuel` bounds the recursion depth. -/
+/-- `buildCodec(schema, typ, omit)` (build.go:32): pointer unwrapping and the registry come first
+(except for union and null schemas), then the switch on the schema type (`buildKind`).
+`fuel` bounds the recursion depth. -/
 def buildCodec (reg : Reg) : Nat → Schema → Option GoType → Bool → Except String Codec
   | 0, _, _, _ => .error "fuel"
   | fuel + 1, s, typ, oe =>
-    let viaRegistry : Option (Except String Codec) :=
-      if s.type != "union" && s.type != "null" then
-        match typ with
-        | some (.ptr e) =>
-          -- buildPointerCodec
-          some (match buildCodec reg fuel s (some e) false with
-            | .ok c => .ok (.pointer c)
-            | .error e => .error e)
-        | some t => (regLookup reg t).map (· s)
-        | none => none
-      else none
-    match viaRegistry with
-    | some r => r
-    | none =>
+    if s.type != "union" && s.type != "null" then
+      match typ with
+      | some (.ptr e) =>
+        -- buildPointerCodec
+        match buildCodec reg fuel s (some e) false with
+        | .ok c => .ok (.pointer c)
+        | .error e => .error e
+      | some t =>
+        match regLookup reg t with
+        | some builder => builder s
+        | none => buildKind reg fuel s typ oe
+      | none => buildKind reg fuel s typ oe
+    else buildKind reg fuel s typ oe
+
+/-- the `switch schema.Type` of buildCodec with the per-type builders inlined -/
+def buildKind (reg : Reg) : Nat → Schema → Option GoType → Bool → Except String Codec
+  | 0, _, _, _ => .error "fuel"
+  | fuel + 1, s, typ, oe =>
       let k := typ.map GoType.strip
       if s.type == "null" then .ok .null
       else if s.type == "boolean" then
